@@ -83,6 +83,13 @@ def side_obligation(name, goal):
     prem = [b.range_cond() for b in c.binders] + list(c.__dict__.get("guards", []))
     if prem:
         g = z3.Implies(z3.And(*prem), g)
+    seen = c.__dict__.setdefault("side_seen", set())
+    key = (name, g.get_id())
+    if key in seen:
+        return           # lazily re-evaluated expression: the obligation of its first evaluation stands
+    seen.add(key)
+    if z3.is_true(z3.simplify(g)):
+        return
     c.side.append((name, c.hyps(), g))
 
 
@@ -107,6 +114,10 @@ def _lift(x):
         return z3.If(x.t, z3.IntVal(1), z3.IntVal(0))
     if z3.is_expr(x):
         return x
+    if hasattr(x, "_cmp_real"):
+        return x._cmp_real().t
+    if hasattr(x, "value") and hasattr(x, "terms"):
+        return x.value()._cmp_real().t
     try:
         import numpy as _np
         if isinstance(x, _np.integer):
@@ -462,7 +473,12 @@ def sym_truediv(a, b):
     cb = z3.simplify(tb)
     if not (z3.is_int_value(cb) or z3.is_rational_value(cb)) or z3.is_true(z3.simplify(cb == 0)):
         side_obligation("def:div-nonzero", tb != 0)
-    return Sym(z3.simplify(_to_real(ta) / _to_real(tb)))
+    ra, rb = z3.simplify(_to_real(ta)), z3.simplify(_to_real(tb))
+    if ra.eq(rb):
+        return Sym(z3.RealVal(1))      # x / x (x != 0 is the side obligation above)
+    if z3.is_rational_value(ra) and ra.numerator_as_long() == 0:
+        return Sym(z3.RealVal(0))
+    return Sym(z3.simplify(ra / rb))
 
 
 def _divmod(a, b):
@@ -552,10 +568,15 @@ def sym_sqrt(x):
             n, d = math.isqrt(fr.numerator), math.isqrt(fr.denominator)
             if n * n == fr.numerator and d * d == fr.denominator:
                 return Sym(z3.RealVal(str(Fraction(n, d))))
+    memo = cur().__dict__.setdefault("fnmemo", {})
+    key = ("sqrt", ct.get_id())
+    if key in memo:
+        return memo[key][0]
     side_obligation("def:sqrt-nonneg", t >= 0)
     s = fresh_real("sqrt")
     define(s >= 0)
     define(s * s == t)
+    memo[key] = (Sym(s), ct)
     return Sym(s)
 
 
@@ -587,9 +608,14 @@ def sym_floor(x):
     t = _lift(x)
     if t.is_int():
         return S(x)
+    memo = cur().__dict__.setdefault("fnmemo", {})
+    key = ("floor", z3.simplify(t).get_id())
+    if key in memo:
+        return memo[key][0]
     r = fresh_int("floor")
     define(z3.ToReal(r) <= t)
     define(t < z3.ToReal(r) + 1)
+    memo[key] = (Sym(r), t)
     return Sym(r)
 
 
@@ -600,9 +626,14 @@ def sym_ceil(x):
     t = _lift(x)
     if t.is_int():
         return S(x)
+    memo = cur().__dict__.setdefault("fnmemo", {})
+    key = ("ceil", z3.simplify(t).get_id())
+    if key in memo:
+        return memo[key][0]
     r = fresh_int("ceil")
     define(z3.ToReal(r) - 1 < t)
     define(t <= z3.ToReal(r))
+    memo[key] = (Sym(r), t)
     return Sym(r)
 
 
@@ -613,9 +644,14 @@ def sym_trunc(x):
     t = _lift(x)
     if t.is_int():
         return S(x)
+    memo = cur().__dict__.setdefault("fnmemo", {})
+    key = ("trunc", z3.simplify(t).get_id())
+    if key in memo:
+        return memo[key][0]
     r = fresh_int("trunc")
     rr = z3.ToReal(r)
     define(z3.If(t >= 0, z3.And(rr <= t, t < rr + 1), z3.And(rr >= t, t > rr - 1)))
+    memo[key] = (Sym(r), t)
     return Sym(r)
 
 
@@ -771,6 +807,94 @@ def model_to_dict(m):
     return out
 
 
+class _NoRelax(Exception):
+    pass
+
+
+def relax_ints(exprs, keep=()):
+    """replace every Int constant (except those named in keep) by a Real constant: proves a more general
+    statement (sound for unsat).  Refuses formulas with div/mod/to_int or uninterpreted functions over ints."""
+    cache = {}
+    keep = set(keep)
+
+    def go(e):
+        i = e.get_id()
+        if i in cache:
+            return cache[i]
+        k = e.decl().kind() if z3.is_app(e) else None
+        if z3.is_int_value(e):
+            r = z3.RealVal(e.as_long())
+        elif z3.is_const(e) and k == z3.Z3_OP_UNINTERPRETED:
+            r = z3.Real(str(e) + "@R") if (e.sort() == z3.IntSort() and str(e) not in keep) else e
+            if e.sort() == z3.IntSort() and str(e) in keep:
+                raise _NoRelax()
+        elif k == z3.Z3_OP_TO_REAL:
+            r = go(e.arg(0))
+        elif k in (z3.Z3_OP_IDIV, z3.Z3_OP_MOD, z3.Z3_OP_REM, z3.Z3_OP_TO_INT, z3.Z3_OP_IS_INT):
+            raise _NoRelax()
+        elif k == z3.Z3_OP_UNINTERPRETED:
+            raise _NoRelax()
+        else:
+            ch = [go(c) for c in e.children()]
+            if k == z3.Z3_OP_ADD:
+                r = z3.Sum(ch)
+            elif k == z3.Z3_OP_MUL:
+                r = z3.Product(ch)
+            elif k == z3.Z3_OP_SUB:
+                r = ch[0] - z3.Sum(ch[1:]) if len(ch) > 1 else -ch[0]
+            elif k == z3.Z3_OP_UMINUS:
+                r = -ch[0]
+            elif k == z3.Z3_OP_DIV:
+                r = ch[0] / ch[1]
+            elif k == z3.Z3_OP_LE:
+                r = ch[0] <= ch[1]
+            elif k == z3.Z3_OP_LT:
+                r = ch[0] < ch[1]
+            elif k == z3.Z3_OP_GE:
+                r = ch[0] >= ch[1]
+            elif k == z3.Z3_OP_GT:
+                r = ch[0] > ch[1]
+            elif k == z3.Z3_OP_EQ:
+                r = ch[0] == ch[1]
+            elif k == z3.Z3_OP_DISTINCT:
+                r = z3.Distinct(*ch)
+            elif k == z3.Z3_OP_ITE:
+                r = z3.If(ch[0], ch[1], ch[2])
+            elif k == z3.Z3_OP_AND:
+                r = z3.And(*ch)
+            elif k == z3.Z3_OP_OR:
+                r = z3.Or(*ch)
+            elif k == z3.Z3_OP_NOT:
+                r = z3.Not(ch[0])
+            elif k == z3.Z3_OP_IMPLIES:
+                r = z3.Implies(ch[0], ch[1])
+            elif k in (z3.Z3_OP_TRUE, z3.Z3_OP_FALSE) or z3.is_rational_value(e):
+                r = e
+            else:
+                raise _NoRelax()
+        cache[i] = r
+        return r
+    return [go(e) for e in exprs]
+
+
+def _nlsat_relaxed(ob, timeout_ms):
+    try:
+        ex = relax_ints(list(ob.hyps) + [ob.goal])
+    except _NoRelax:
+        return None
+    s = z3.Tactic("qfnra-nlsat").solver()
+    s.set("timeout", timeout_ms)
+    s.add(*ex[:-1])
+    s.add(z3.Not(ex[-1]))
+    try:
+        r = s.check()
+    except z3.Z3Exception:
+        return None
+    if r == z3.unsat:
+        return dict(status="unsat", backend="z3-nlsat(int-relaxed)", model=None)
+    return None          # sat over the reals proves nothing about the integer statement
+
+
 def discharge(ob, timeout_ms=10000, use_cvc5=True):
     """returns dict(status= 'unsat'|'sat'|'unknown', backend, time_s, model)"""
     import time
@@ -786,6 +910,10 @@ def discharge(ob, timeout_ms=10000, use_cvc5=True):
     if r == z3.sat:
         return dict(status="sat", backend="z3", time_s=dt, model=model_to_dict(s.model()), z3model=s.model())
     reason = s.reason_unknown()
+    r1 = _nlsat_relaxed(ob, timeout_ms)
+    if r1 is not None:
+        r1["time_s"] = time.time() - t0
+        return r1
     if use_cvc5:
         r2 = _cvc5(ob.smt2(), timeout_ms)
         if r2 is not None:
